@@ -107,6 +107,18 @@ class SArr(real_np.ndarray):
             return self.copy()
         if dtype in (bool, real_np.bool_):
             return _collapse(real_np.frompyfunc(to_bool, 1, 1)(real_np.asarray(self)))
+        try:
+            dt = real_np.dtype(dtype)
+        except TypeError:
+            dt = None
+        if dt is not None and dt.kind == 'u':
+            w = 8 * dt.itemsize
+            vals = real_np.frompyfunc(lambda v: arith('%', to_int(v), 1 << w), 1, 1)(real_np.asarray(self)) if self.size else real_np.asarray(self)
+            return as_unsigned(real_np.asarray(vals, dtype=object).reshape(self.shape), w)
+        if dt is not None and dt.kind == 'i':
+            return self.copy()          # narrower signed integers: values of the bounded model fit
+        if dt is not None and dt.kind in 'fc':
+            return self.copy()
         raise NeedConcrete('astype(%r) on a symbolic array' % (dtype,))
 
     def dot(self, other):
@@ -205,6 +217,10 @@ class UArr(SArr):
 
     def astype(self, dtype, **kw):
         return self.view(SArr).astype(dtype, **kw)
+
+    def _concrete(self):
+        a = SArr._concrete(self.view(SArr))
+        return a.astype({8: real_np.uint8, 16: real_np.uint16, 32: real_np.uint32}.get(self._uw, real_np.uint64))
 
 
 def as_unsigned(a, width=8):
@@ -395,6 +411,9 @@ class NPShim:
         if isinstance(x, real_np.ndarray) and x.dtype == object and not isinstance(x, UArr) and _int_dtype(dtype) \
                 and not any(_is_boolish(v) for v in x.reshape(-1)):
             return x        # object arrays of integers stand for int64 arrays: asking for the dtype they have copies nothing
+        if isinstance(x, real_np.ndarray) and x.dtype == object and _is_complex_dtype(dtype) and \
+                any(isinstance(v, (complex, real_np.complexfloating, SC)) for v in x.reshape(-1)):
+            return x        # an object array holding complex entries stands for a complex128 array: same dtype, no copy
         r = self.array(x, dtype=dtype)
         return r.view(SArr) if isinstance(r, UArr) and _int_dtype(dtype) else r
 
@@ -465,16 +484,25 @@ class NPShim:
             return real_np.abs(a)
         return abs(a)
 
-    def argmax(self, a, **kw):
+    def argmax(self, a, axis=None, **kw):
         a = real_np.asarray(a)
         if a.dtype != object:
-            return real_np.argmax(a)
-        # first index whose value is >= all others: fork on comparisons
-        best = 0
-        for i in range(1, a.size):
-            if bool(compare('>', a.reshape(-1)[i], a.reshape(-1)[best])):
-                best = i
-        return best
+            return real_np.argmax(a, axis=axis, **kw)
+
+        def first_max(v):
+            # first index whose value is >= all others: fork on comparisons
+            best = 0
+            for i in range(1, v.size):
+                if bool(compare('>', v[i], v[best])):
+                    best = i
+            return best
+        if axis is None:
+            return first_max(a.reshape(-1))
+        moved = real_np.moveaxis(a, axis, -1)
+        out = real_np.empty(moved.shape[:-1], dtype=int)
+        for pos in real_np.ndindex(*moved.shape[:-1]):
+            out[pos] = first_max(moved[pos])
+        return out
 
     def unique(self, arr, return_index=False, return_inverse=False, axis=None, **kw):
         arr = real_np.asarray(arr)
